@@ -151,10 +151,10 @@ CHECKS["C05"] = dict(
 )
 
 CHECKS["C01"] = dict(
-    technique="Coq model of the pure Python fragment (Lib/PyEval.v: values with identity, ==, is, <, in, and/or/not, conditional, min/max, sorted) with one soundness theorem per rewrite rule in the fragment (guarded where the unguarded statement is refuted by a vm_compute witness); the model's operations are tied to CPython by vm_compute correspondence; every rule instance (72 checks) is linted by the real refurb, the replacement is taken from the message it prints, and original and replacement are executed in CPython over typed operand products",
+    technique="Coq models of the pure Python fragment (Lib/PyEval.v: values with identity, ==, is, <, in, and/or/not, conditional, min/max, sorted) and of statements over mutable lists/sets behind references (Lib/PyHeap.v), with one soundness theorem per rewrite rule in the fragment (guarded where the unguarded statement is refuted by a vm_compute witness); FURB123's cast table translated from source with a table-soundness theorem; the models are tied to CPython by vm_compute correspondence; every rule instance (72 checks), every single-site neighbouring shape and every member of the table-driven families is linted by the real refurb, the replacement is taken from the message it prints, and original and replacement are executed in CPython over typed operand products",
     category="proof",
-    text="Partial. Proved for all operands: the rule theorems in Props/C01 (FURB108/109/110/114/124/136/143/149/168/169/171/191/192 in their modelled operand types, each with its guard and, where the guard is needed, a refutation witness that is replayed on CPython). For the other rules (library calls, statements, file system) equivalence is decided by execution over finite operand products only (value, type, exception class, stdout, aliasing, operand mutation, scratch directory tree).",
-    note="Trusted: Coq kernel; hand-written PyEval model (tied by correspondence on the operand products the engine executes); rule table tools/vf/props/c01_rules.py (an instance per check, replacement read from refurb's own message); CPython as the reference semantics.",
+    text="Partial. Proved for all operands: the 40 rule theorems in Props/C01 (FURB108/110/114/115/124/136/143/149/168/169/171/191/192 in their modelled operand types; statements FURB113/131/132/142/148/186/187; FURB123's table), each with its guard and, where the guard is needed, a refutation witness. For the other checks (library calls, file system, the remaining statements) equivalence is decided by execution over finite operand products only (value, type, exception class, stdout, aliasing, operand mutation, scratch directory tree).",
+    note="Trusted: Coq kernel; hand-written PyEval/PyHeap models (tied by correspondence on the operand products the engine executes); the cast-table translator; rule table tools/vf/props/c01_rules.py (an instance per check, replacement read from refurb's own message); CPython as the reference semantics; the list of immutable builtins in Props/C01/C01Tables.v.",
     ref="C01",
 )
 
